@@ -48,6 +48,11 @@ WithinLimit(r, d) == WithinLimitT(IF r.refDivision > 0 THEN r.refDivision ELSE 9
 \* no property says that it must be written
 RefusedOk(r, d) == r.refused /\ (~WithinLimit(r, d) \/ ~AllInRange(d))
 
+\* The half-tick choice is enumerated (2^h assignments for h halfway instances).  The generators' fractions are tuned to
+\* crd's 960 ticks per quarter note (h <= 2); at another resolution a document may have a dozen, and rather than leave the
+\* whole check undecided such a document is left unjudged (never the case on the pinned tree)
+TooAmbiguous(r, d) == Cardinality(HalfSet(r.division, d)) > 10
+
 \* ------------------------------------------------------------------ C01
 C01Ok(r) == LET d == Eff(r.doc, r.flags)  cidx == ChordIdxOf(d)  ticks == StrikeTicks(r.ev) IN
          /\ WellFormedInput(d)                \* the driver generated what it claims
@@ -83,7 +88,7 @@ C02Written(r) ==
              voices == Voices(notes) IN
          /\ r.ok /\ r.ok1
          /\ \A v \in voices : VoiceOk(VoiceSeq(notes, v))
-         /\ \E ch \in Choices(r.division, d) : LET st == StartsOf(r, d, ch)
+         /\ TooAmbiguous(r, d) \/ \E ch \in Choices(r.division, d) : LET st == StartsOf(r, d, ch)
                                                    want == {<<st[cidx[k]], st[cidx[k] + 1]>> : k \in 1..Len(cidx)}
                                                    got == UNION {SpansOf(VoiceSeq(notes, v)) : v \in voices} IN
               got = want          \* strikes at the instance start (first instance at 0), releases at its end; rests silent; gapless
@@ -97,7 +102,7 @@ C06Written(r) ==
          /\ r.ok /\ r.ok1
          /\ Merged(r.ev) = Merged(r.ev1)                        \* same events at the same ticks, whatever the distribution
          /\ Len(eots) = r.tracks /\ Len(eots1) = 1
-         /\ \E ch \in Choices(r.division, d) : LET total == StartsOf(r, d, ch)[Len(d) + 1] IN
+         /\ TooAmbiguous(r, d) \/ \E ch \in Choices(r.division, d) : LET total == StartsOf(r, d, ch)[Len(d) + 1] IN
               /\ \A j \in 1..r.tracks : eots[j][2] = total     \* every track ends when the piece ends
               /\ eots1[1][2] = total
 
@@ -125,7 +130,7 @@ C07Written(r) ==
             LET d == Eff(r.doc, r.flags)  ctl == SelectSeq2(r.ev, IsControl)  dem == Demands(d)
                 textual == {mTEXT, mLYRIC, mMARKER} IN
          /\ r.ok
-         /\ \E ch \in Choices(r.division, d) : LET st == StartsOf(r, d, ch) IN
+         /\ TooAmbiguous(r, d) \/ \E ch \in Choices(r.division, d) : LET st == StartsOf(r, d, ch) IN
               \* every demanded event is there: at the start of its instance, with the written value (which track carries the
               \* settings is C08's sentence, judged there)
               /\ \A dm \in dem : \E j \in 1..Len(ctl) :
